@@ -14,7 +14,8 @@ from .common import DIMSETS, region_inputs
 
 META = dict(
     bounds=dict(
-        quick=dict(ndim="1..3", n_symbolic="1..64 per axis (index arithmetic, cell-size constructor)",
+        quick=dict(also="cell counts given as a caller-owned int64 array that is modified afterwards; native binary64 sweeps of the vertex / centre lists (offsets up to 1e6, up to 4000 cells)",
+                   ndim="1..3", n_symbolic="1..64 per axis (index arithmetic, cell-size constructor)",
                    n_enumerated="each axis in {1,2,3} (lattice enumeration)", dims="default and renamed"),
         thorough=dict(ndim="1..4", n_symbolic="1..64", n_enumerated="each axis in {1..5} (<=3 axes), {1,2,3} (4 axes)",
                       dims="default and renamed", fp64="binary64 lemmas by cvc5 on the executed code (1-d, n<=5, every i): index->point->index round trip, pmax maps to the last cell; "
